@@ -285,7 +285,7 @@ def run(ctx):
     from . import c13 as _c13
     reuse(ctx, _c13.run, ("C13.flow", "C13.nomut"), "C03rt", "flow round-trip rules shared with C13: a proposal that loses its data transform, its weights or a constructor option on "
           "save / load / re-save evaluates log_prob on a different density than the one its stored draws and log_q values came from")
-    reuse(ctx, c04.run, ("C04.deriv", "C04.anti", "C04.affine", "C04.wire", "C04.acc", "C04.unit", "C04.alloc", "C04.rt"), "C03dt",
+    reuse(ctx, lambda c: c04.run(c, shared=False), ("C04.deriv", "C04.anti", "C04.affine", "C04.wire", "C04.acc", "C04.unit", "C04.alloc", "C04.rt"), "C03dt",
           "data-transform rule shared with C04: the proposal density includes these Jacobians")
 
     # ---------------- Flow.__init__ default transform
